@@ -175,7 +175,9 @@ where
     if dtype.isNone && elem.isInteger then
       match smallestInt rows.flatten with
       | .ok tp => .ok (rows, w, tp)
-      | .error e => .error e
+      -- `except StopIteration: if arr.dtype != np.int64: raise ValueError(...); dtype = np.int64`
+      -- (only -2**63 gets here with an int64 array: it already is an int64, repair ecd6256)
+      | .error e => if elem = .int64 then .ok (rows, w, .int64) else .error e
     else .ok (rows, w, elem)
 
 /-- `labels_type(labels)`: a list keeps everything, `Variables` keeps the first occurrence of each label -/
